@@ -1461,6 +1461,9 @@ func (p *prop) Run(line string) core.Outcome {
 	if f := strings.Fields(line); len(f) > 0 && f[0] == "cf" {
 		return p.runCf(f)
 	}
+	if f := strings.Fields(line); len(f) > 0 && f[0] == "cli" {
+		return p.runCli(f)
+	}
 	if f := strings.Fields(line); len(f) > 0 && f[0] == "hist" {
 		return p.runHist(line, f)
 	}
